@@ -37,6 +37,21 @@ def _decoy_breaker():
         pass
 
 
+
+def _poison(kw):
+    """The caller re-uses and mutates its own containers after constructing the breaker (e.g. to
+    build a second, stricter one): the first breaker must not see that."""
+    ct = kw.get("class_thresholds")
+    if ct is not None:
+        for k in list(ct):
+            ct[k] = 1
+        for k in KL.values():
+            ct.setdefault(k, 1)
+    to = kw.get("trip_on")
+    if to is not None:
+        to.clear()
+
+
 def make_breaker(cfg, clock):
     _decoy_breaker()
     kw = dict(failure_threshold=cfg["threshold"], window_s=cfg["window"] * TAU,
@@ -45,7 +60,9 @@ def make_breaker(cfg, clock):
         kw["trip_on"] = {KL[k] for k in cfg["trip_on"]}
     if cfg.get("class_thresholds"):
         kw["class_thresholds"] = {KL[k]: v for k, v in cfg["class_thresholds"].items()}
-    return CircuitBreaker(**kw)
+    b = CircuitBreaker(**kw)
+    _poison(kw)
+    return b
 
 
 def make_spec(cfg, conv):
